@@ -21,14 +21,14 @@ import rules_struct
 
 PROPS = {
     "C02": {
-        "rules": [rules_wt.run, rules_follow.make("R-HDR", "C02"), rules_follow.make("R-INIT", "C02"), rules_struct.freshid, rules_struct.hdrcount("C02"), rules_struct.hdrv3("C02"), rules_struct.parenttype("C02"), rules_entry.gstore],
+        "rules": [rules_wt.run, rules_follow.make("R-HDR", "C02"), rules_follow.make("R-INIT", "C02"), rules_struct.freshid, rules_struct.hdrcount("C02"), rules_struct.hdrv3("C02"), rules_struct.parenttype("C02"), rules_entry.gstore, rules_struct.namelen("C02")],
         "explanation": "R-WT: every store site to an in-memory mirror of on-disk state (cached FAT/DIFAT/DIFAT-sector list, MiniFAT and its start sector, directory entry table, sector count; enumerated automatically from MIR: &mut borrows of mirror fields, stores through dir_entry_mut, direct field stores) is paired in the same function with a file write of the same datum "
                        "(same value by provenance, or write_dir_entry/write_to/seek_within_dir_entry+write_le_u32 of the same entry id at the field's offset), either dominating the store or on every Ok path after it; six listed exceptions with reasons. "
                        "R-HDR: header counters (words 40/44/60/64/68/72) are rewritten in the same function that changes the chain they count, on every Ok path. R-INIT: every sector handed out by allocate_sector - reused from the free list or appended - is reset with the caller's initialiser before it is returned (a directory sector recycled without SectorInit::Dir would reopen as garbage entries).",
         "not_decided": "that the bytes reopen to the same state; that the right value is written; crash points inside an operation",
     },
     "C03": {
-        "rules": [rules_follow.make("R-MARK"), rules_follow.make("R-HDR", "C03"), rules_follow.make("R-BLANK"), rules_follow.make("R-INIT", "C03"), rules_own.make("C03"), rules_entry.gstore, rules_layout.run("C03"), rules_struct.cutoff, rules_struct.unit, rules_struct.freshid, rules_follow.make("R-FREEOLD", "C03"), rules_struct.hdrcount("C03"), rules_struct.hdrv3("C03"), rules_struct.parenttype("C03"), rules_struct.initkind("C03"), rules_struct.linkkeep("C03"), rules_struct.unlink("C03"), rules_struct.blankown("C03"), rules_struct.killread("C03"), rules_struct.ceil("C03"), rules_entry.slotreset("C03"), rules_guard.make("R-BEGINGUARD"), rules_follow.make("R-FREEREBUILD", "C03")],
+        "rules": [rules_follow.make("R-MARK"), rules_follow.make("R-HDR", "C03"), rules_follow.make("R-BLANK"), rules_follow.make("R-INIT", "C03"), rules_own.make("C03"), rules_entry.gstore, rules_layout.run("C03"), rules_struct.cutoff, rules_struct.unit, rules_struct.freshid, rules_follow.make("R-FREEOLD", "C03"), rules_struct.hdrcount("C03"), rules_struct.hdrv3("C03"), rules_struct.parenttype("C03"), rules_struct.initkind("C03"), rules_struct.linkkeep("C03"), rules_struct.unlink("C03"), rules_struct.blankown("C03"), rules_struct.killread("C03"), rules_struct.ceil("C03"), rules_entry.slotreset("C03"), rules_guard.make("R-BEGINGUARD"), rules_follow.make("R-FREEREBUILD", "C03"), rules_struct.detach("C03"), rules_struct.namelen("C03"), rules_struct.freebeforeremove("C03")],
         "explanation": "Format-maintenance obligations visible as code shape: R-MARK (FAT/DIFAT sectors marked as such; allocated cell END_OF_CHAIN before use; freed cells FREE), R-HDR (header counts follow the chains), "
                        "R-BLANK (a removed entry's slot is overwritten with DirEntry::unallocated() on disk), R-GSTORE (no CLSID/timestamps on streams: every store to those fields is dominated by a test excluding ObjType::Stream; only storages are stamped at creation), R-OWN (allocation protocol: who may change FAT cells / free lists / initialise sectors), R-LAYOUT (symbolic walk of DirEntry::read_from/write_to and Header::read_from/write_to in control-flow order: same widths, counts and fields at the same offsets, totals 128 and 512, in-place patch offsets 68/72/76 and 40/44/60/64/68/72/76 equal the derived field offsets).",
         "not_decided": "single ownership of sectors, no orphans, chain length vs stream size, sibling-tree order and colouring: invariants over the contents of FAT and directory across histories",
@@ -50,7 +50,7 @@ PROPS = {
         "assumptions": ["audited sink entries (rules/sinks.json) record a human judgement made once by reading the code; the analysis re-checks only that their required guards still dominate the sink"],
     },
     "C06": {
-        "rules": [rules_io.flushfirst, rules_io.window, rules_io.posdim, rules_io.poskeep, rules_struct.cutoff, rules_zero.run, rules_struct.ceil("C06"), rules_api.errkind("C06"), rules_io.buffull("C06")],
+        "rules": [rules_io.flushfirst, rules_io.window, rules_io.posdim, rules_io.poskeep, rules_struct.cutoff, rules_zero.run, rules_struct.ceil("C06"), rules_api.errkind("C06"), rules_io.buffull("C06"), rules_io.writeat("C06")],
         "explanation": "Cache-protocol clauses of the hand-written stream buffer, decided as path properties over the MIR of every Stream method: "
                        "R-FLUSHFIRST (every window move - store to buf_offset_from_start, StreamBuffer::clear, refill_with - is preceded on every path by the ok successor of flush_changes, with no mark_modified in between) and "
                        "R-WINDOW (after the window offset is stored, every path to any return, error exits included, passes clear or a successful refill), R-POSDIM (every value stored as window offset or stream length is a stream position - old offset + buffer-relative amount, current_position(), or a validated absolute target - never a bare buffer cursor), R-ERRKIND rows (the five out-of-range seeks are InvalidInput).",
@@ -63,7 +63,7 @@ PROPS = {
         "not_decided": "that the bytes are zero and that the zero-filled range is exactly [old, new): values",
     },
     "C09": {
-        "rules": [rules_name.validname, rules_name.norm, rules_name.orient, rules_struct.unit, rules_struct.unlink("C09"), rules_struct.blankown("C09"), rules_struct.linkkeep("C09"), rules_struct.fold("C09"), rules_det.narrow_in("C09", ["internal::path::"], "the name validation / comparison functions"), rules_struct.namelen("C09"), rules_api.errkind("C09"), rules_name.normbody("C09"), rules_struct.namelimit("C09")],
+        "rules": [rules_name.validname, rules_name.norm, rules_name.orient, rules_struct.unit, rules_struct.unlink("C09"), rules_struct.blankown("C09"), rules_struct.linkkeep("C09"), rules_struct.fold("C09"), rules_det.narrow_in("C09", ["internal::path::"], "the name validation / comparison functions"), rules_struct.namelen("C09"), rules_api.errkind("C09"), rules_name.normbody("C09"), rules_struct.namelimit("C09"), rules_struct.detach("C09"), rules_name.lookupexit("C09")],
         "explanation": "R-VALIDNAME (must-pass-through, interprocedural): from every DirEntry::new call with a non-constant name, walking up the call graph along the name argument to the public methods, some function validates the name (ok successor of validate_name on data derived from the same parameter dominates the forwarding call; a completed validation loop counts) and no state mutation precedes that validation on the chain. "
                        "R-NORM: every API method's path parameter reaches only name_chain_from_path (or formatting / forwarding to another API method), and lookups/inserts/removals take names derived from its result. "
                        "R-ORIENT: all compare_names sites agree on orientation (sought name first; Less -> left_sibling, Greater -> right_sibling in both the walk and the link update; validate rejects exactly != Less for (left,node) and (node,right)); no other comparator touches entry names in the directory layer. "
@@ -77,7 +77,7 @@ PROPS = {
         "not_decided": "bit-for-bit equality of state (follows from 'no effect ran' only given that effect-free code is effect-free, which the effect closure establishes for this crate); partial effects of the compound operations create_storage_all/remove_storage_all when a later step is refused by a callee",
     },
     "C11": {
-        "rules": [rules_sink.sink("mutation"), rules_sink.qual_rule("mutation"), rules_sink.term("mutation"), rules_sink.alloc("mutation"), rules_guard.make("R-INV"), rules_own.make("C11"), rules_follow.make("R-CTOR", "C11"), rules_struct.freelist, rules_entry.slotreset("C11"), rules_struct.chainpos("C11"), rules_lock.reacquire("C11"), rules_struct.nameinv("C11")],
+        "rules": [rules_sink.sink("mutation"), rules_sink.qual_rule("mutation"), rules_sink.term("mutation"), rules_sink.alloc("mutation"), rules_guard.make("R-INV"), rules_own.make("C11"), rules_follow.make("R-CTOR", "C11"), rules_struct.freelist, rules_entry.slotreset("C11"), rules_struct.chainpos("C11"), rules_lock.reacquire("C11"), rules_struct.nameinv("C11"), rules_struct.detach("C11")],
         "explanation": "Same engine as C05 on the mutation surface (every public method, dev profile so that debug assertions and overflow checks count as panics): R-TERM, R-SINK, R-QUAL, R-ALLOC, R-INV, R-CTOR, R-OWN. "
                        "Fields no validator covers (DirEntry.start_sector / stream_len, special FAT values) must reach index sites and raw walks only through the checked accessors or a dominating chain validation; the audit of the sink table found and led to repairs of five panics on damaged-but-accepted files, and records two more as known findings.",
         "not_decided": "as C05; behaviour of several handles on one stream (recorded as a known finding); resource exhaustion by caller-chosen sizes (set_len near u64::MAX)",
@@ -97,27 +97,27 @@ PROPS = {
         "not_decided": "no panic/hang after a failed write on half-updated state (C11's question); that the flushed bytes are the accepted bytes (values)",
     },
     "C15": {
-        "rules": [rules_guard.make("R-REUSE.consult"), rules_follow.make("R-REUSE"), rules_guard.make("R-CAP"), rules_follow.make("R-FREEOLD", "C15"), rules_own.make("C15"), rules_struct.killread("C15"), rules_mode.rawfield("C15"), rules_struct.linkkeep("C15"), rules_struct.ceil("C15"), rules_struct.dirlen("C15"), rules_guard.make("R-BEGINGUARD"), rules_follow.make("R-FREEREBUILD", "C15"), rules_struct.trimloop("C15")],
+        "rules": [rules_guard.make("R-REUSE.consult"), rules_follow.make("R-REUSE"), rules_guard.make("R-CAP"), rules_follow.make("R-FREEOLD", "C15"), rules_own.make("C15"), rules_struct.killread("C15"), rules_mode.rawfield("C15"), rules_struct.linkkeep("C15"), rules_struct.ceil("C15"), rules_struct.dirlen("C15"), rules_guard.make("R-BEGINGUARD"), rules_follow.make("R-FREEREBUILD", "C15"), rules_struct.trimloop("C15"), rules_struct.freebeforeremove("C15")],
         "explanation": "R-REUSE: (a) every append path of allocate_sector / allocate_mini_sector / allocate_dir_entry is dominated by the 'nothing free' outcome of the free-list query (guard atoms); (b) every free feeds the list (free_sector => set_fat(FREE) + free_sectors.push on all Ok paths; likewise mini sectors; free_chain frees each visited sector); (c) validate rebuilds both lists from exactly the FREE cells. "
                        "R-CAP: the branch guarding each extension of the mini-stream chain and of the MiniFAT chain has the chain's physical length (Chain::len / num_sectors) in its condition, not only the logical length that shrinks on release. R-FREEOLD: wherever a stream that already has a chain is moved to a freshly started chain (mini<->regular migration), and before a removed stream's entry goes away, the old chain is freed first on every path.",
         "not_decided": "that file size is constant from the second repetition of any net-zero cycle (values of the free lists over histories); LIFO order; truncation of the file (the code has none)",
     },
     "C16": {
-        "rules": [rules_mode.run, rules_struct.sibflag("C16"), rules_mode.rawfield("C16"), rules_mode.builder("C16")],
+        "rules": [rules_mode.run, rules_struct.sibflag("C16"), rules_mode.rawfield("C16"), rules_mode.builder("C16"), rules_mode.normapplied("C16")],
         "explanation": "R-MODE over all is_strict() tests (19 call sites): S - the region of the CFG dominated by the strict edge of each mode test contains no store, no mutating call and no Ok return, only refusals of kind InvalidData; "
                        "P/N - the region dominated by the permissive edge is either a listed normaliser that only pops/truncates its listed vector (DIFAT zero-stripping, FAT tail stripping, MiniFAT truncation) or a canonicalising assignment nested inside a documented deviation test; no refusal is made only in permissive mode. "
                        "Deviation inventory: each of the 18 documented deviations is located (regexes over guard atoms) as a refusal with is_strict() on its path (or, for the zero-padded FAT, an unconditional refusal pre-empted by the permissive normaliser).",
         "not_decided": "that the permissive view of a damaged file equals the undamaged file's content (values); deviations combined with foreign layouts",
     },
     "C17": {
-        "rules": [rules_follow.make("R-SETTER", "C17"), rules_entry.gstore, rules_det.narrow, rules_layout.run("C17"), rules_entry.moveall, rules_entry.getter("C17"), rules_entry.closurestore("C17"), rules_api.errkind("C17")],
+        "rules": [rules_follow.make("R-SETTER", "C17"), rules_entry.gstore, rules_det.narrow, rules_layout.run("C17"), rules_entry.moveall, rules_entry.getter("C17"), rules_entry.closurestore("C17"), rules_api.errkind("C17"), rules_det.epochcentre("C17")],
         "explanation": "R-SETTER: every metadata setter reaches with_dir_entry_mut on its Ok path, which forwards the same id down to Directory::with_dir_entry_mut, which writes the same slot back (write_dir_entry(same id) -> seek(128*id) + dir_entries[id].write_to). "
                        "R-GSTORE: streams never receive a CLSID or timestamps (every store to those fields is dominated by a test excluding ObjType::Stream). "
                        "R-NARROW: the FILETIME<->SystemTime conversion is total and saturating (no narrowing integer cast unless interval evaluation shows it fits, no unchecked SystemTime/Duration arithmetic, no unwrap of a fallible time operation). R-LAYOUT: the directory-entry serialiser and parser agree field for field (clsid, state bits, both timestamps at the same offsets and widths). R-ERRKIND rows: CLSID on a stream is InvalidInput, setters on a missing path are NotFound.",
         "not_decided": "exact values returned; 100 ns rounding direction; saturation limits; clock bracketing of a new storage's times (values)",
     },
     "C18": {
-        "rules": [rules_det.short, rules_det.seekfirst, rules_det.nondet, rules_io.poskeep, rules_det.kindkeep("C18"), rules_det.trunc("C18"), rules_follow.make("R-RETRY", "C18")],
+        "rules": [rules_det.short, rules_det.seekfirst, rules_det.nondet, rules_io.poskeep, rules_det.kindkeep("C18"), rules_det.trunc("C18"), rules_follow.make("R-RETRY", "C18"), rules_io.writeat("C18")],
         "explanation": "R-SHORT: each of the short-count primitives (Read::read/Write::write call sites) returns its count to the caller and advances its position by exactly that count, so results cannot depend on how the backend splits transfers; everything else uses exact-transfer forms. "
                        "R-SEEKFIRST: raw backend I/O occurs only in Sector methods, the absolute-seek helpers and two listed sequential constructors; a Sector is only built after a successful seek(SeekFrom::Start). "
                        "R-NONDET: clock reads confined to Timestamp::now (from insert_dir_entry) and touch; no iteration over randomly seeded hash containers; no pointer-to-integer casts.",
@@ -207,6 +207,23 @@ _ADDED4 = {
     "C18": " R-RETRY rows: a sector allocated in Chain::write / MiniChain::write is recorded in the chain's id list before anything else can fail (an Interrupted write is repeated by write_all).",
 }
 for _pid, _txt in _ADDED4.items():
+    PROPS[_pid]["explanation"] = PROPS[_pid]["explanation"] + _txt
+
+_ADDED5 = {
+    "C02": " R-NAMELEN (writer side): DirEntry::write_to stores the name length from the number of UTF-16 code units written.",
+    "C03": " R-NAMELEN as for C02. R-CEIL also reports `unit - x % unit` used as a count without a remainder test. R-DETACH: a node adopts a subtree only after it was taken out of it. R-FREEFIRST: remove_dir_entry is only reached behind the release of the stream's chain.",
+    "C06": " R-WRITEAT: the flushed window is written at its own offset in every branch of write_data_to_stream.",
+    "C08": " R-CEIL also reports `x | (unit - 1)` (the last offset inside the unit) used as an exclusive end.",
+    "C09": " R-LOOKUPEXIT: the name lookup answers None only when its walk reached NO_STREAM. R-DETACH as for C03.",
+    "C10": " R-DEEPREFUSAL also covers InvalidInput refusals of a caller-supplied argument raised below the API layer (they must precede every file-writing effect on the call chain; a refusal the caller has already made itself is discharged).",
+    "C11": " R-DETACH as for C03 (a cycle in the sibling tree makes lookups and listings spin).",
+    "C13": " R-DIRTY also covers a dirty marker that is set to None directly: nothing may fail after it.",
+    "C15": " R-FREEFIRST as for C03 (an overwrite or removal that skips the release orphans the old contents, every time).",
+    "C16": " R-NORMALL: each type-dependent normalisation of DirEntry::read_from is applied on every path of that object type (no `else if` chaining of independent fix-ups).",
+    "C17": " R-EPOCH: the timestamp conversion measures from UNIX_EPOCH, so truncation rounds toward the Unix epoch.",
+    "C18": " R-WRITEAT as for C06 (a migration that carries over a different number of bytes gives different contents for different buffer sizes).",
+}
+for _pid, _txt in _ADDED5.items():
     PROPS[_pid]["explanation"] = PROPS[_pid]["explanation"] + _txt
 
 
